@@ -98,9 +98,9 @@ CHECKS = {
          "go/types (go1.23) is the oracle; inference itself is go/types' routine reached through linkname, the adapter around it is what is tested.",
          "property-based testing: generated generic calls, differential against go/types (verdict, Info.Instances, types)"),
  "C06": ("exploration",
-         "Generated overload families of 1-6 and 11-14 candidates (so that the letters of the 0-9a-z suffix alphabet are reached) in a synthetic XGo package (package functions by __k suffix, XGoo_ tables with explicit names and empty slots, methods on value and pointer receivers; fixed, variadic, generic and untyped-constant-accepting parameters; each candidate returns its own result type; candidates with a big-number parameter followed by a never-satisfiable parameter, which rewrite an untyped constant argument before they fail, under the XGo configuration) crossed with generated argument lists (typed values, boundary untyped constants, nil, function literals, a generic function value, typed constants). Reference model: candidate k is applicable iff go/types accepts an explicit call of it; expected = least applicable k. The emitted callee, the Recorder.Call object and the reported result type must be candidate expected's, none applicable => rejected, the emitted call type-checks, and the emitted argument expressions equal those of a direct call of the chosen candidate built in a fresh package (no residue of rejected candidates).",
+         "Generated overload families of 1-6 and 11-14 candidates (so that the letters of the 0-9a-z suffix alphabet are reached) in a synthetic XGo package (package functions by __k suffix, XGoo_ tables with explicit names and empty slots, methods on value and pointer receivers, methods of an interface type, overloaded binary operators of a named type written `vt + y`, overloaded type casts of a named type written `ovl.C(args)`; fixed, variadic, generic and untyped-constant-accepting parameters; each candidate returns its own result type; candidates with a big-number parameter followed by a never-satisfiable parameter, which rewrite an untyped constant argument before they fail, under the XGo configuration) crossed with generated argument lists (typed values, boundary untyped constants, nil, function literals, a generic function value, typed constants). Reference model: candidate k is applicable iff go/types accepts an explicit call of it; expected = least applicable k. The emitted callee, the Recorder.Call object and the reported result type must be candidate expected's, none applicable => rejected, the emitted call type-checks, and the emitted argument expressions equal those of a direct call of the chosen candidate built in a fresh package (no residue of rejected candidates).",
          "DESIGN.md §7 C06",
-         "go/types decides applicability; suffix families are contiguous from 0 (documented precondition). Interface-method and operator overloads and overloaded named types are exercised by C15's histories but not modelled here.",
+         "go/types decides applicability; suffix families are contiguous from 0 (documented precondition). Overloaded generic named types (Foo__0[T], Foo__1[K, V], selected by Instantiate) and unary-operator methods (which cannot be overloaded by arguments) are exercised by C15's histories but not modelled here; C() of a cast family without a zero-parameter candidate is the zero-value form (C14).",
          "property-based testing with a reference model of overload resolution derived from go/types; metamorphic no-residue relation"),
  "C19": ("exploration",
          "Model-based state-machine testing (rapid): random Set/Delete/At/Len/Keys/Iterate/String histories over a pool of generated type keys containing structurally identical but pointer-distinct rebuilds, aliases, permuted/flattened interfaces, permuted unions, renamed type parameters, separately created instantiations, deliberate hash-collision twins and same-named foreign types; after every step every observable is compared with an association list over types.Identical, and Identical=>equal-hash is checked on all pool pairs. Sampling, not proof: right level because the property quantifies over unbounded histories and type shapes.",
